@@ -217,14 +217,29 @@ def run(tier, seed):
                 sk += 1
     from . import table
     rep2 = check.run_groups("C19", {"constsel": ("\n".join(stu) + "\n", sroots)}, tier, seed, props_filter=lambda fn: table.prop_of(fn) == "C19")
+    from . import replay as _replay
+
+    def native(t):
+        def run(f, vals, rdir):
+            # the verifier's counterexample replayed on the real headers (same driver / checker as the lane-wise properties)
+            _replay.make_replay("C19", t, f, rdir)
+            res, out = _replay.run_replay(rdir)
+            if res is None:
+                return {"error": str(out)[-400:]}
+            return {"reproduced": res.get("pre") == 1 and res.get("post") == 0, "output": str(out)[-400:], "result": res}
+        return run
     for t in rep2.targets:
         S.add(t["dem"], "%s:%s" % (t["file"], t["line"]), {"status": t["status"], "n_props": t["n_props"], "mode": t["mode"], "backend": t["backend"], "seconds": t["seconds"],
                                                          "detail": t["detail"], "failed": t["failed"], "stem": t["stem"], "sample_props": []}, replaced=t["replaced"])
+        if t["status"] == "failed":
+            rep.targets[-1]["native_replay"] = native(t)
     rep.infra += rep2.infra
-    shutil.rmtree(rep2.wd, ignore_errors=True)
+    rep.extra_wd = rep2.wd
     rep.notes["exhaustive"] = False
     rep.notes["program_space"] = {"architectures": archs, "element_types": types, "constant_instantiations": len(insts), "expected_packs": len(expected), "seed": seed,
                                   "families": "one-hot, all-but-one, iota, reversed iota, seeded random; boolean one-hot / all-but-one / random; + - * & | ^ unary- ~ at type level"}
     rep.assumptions += ["the template-argument (program) space is sampled, not enumerated: evidence gives the counts",
                         "constant-taking swizzle/shuffle/insert/slide/rotate kernels are proved against the pack-indexed map in C05; select(batch_bool_constant) kernels and API against the constant mask (sampled patterns)"]
-    return special.finish_special(rep, "C19")
+    rc = special.finish_special(rep, "C19")
+    shutil.rmtree(getattr(rep, "extra_wd", "") or "/nonexistent", ignore_errors=True)
+    return rc
